@@ -44,12 +44,13 @@ _RUNS = {}
 
 def runs(tier, seed):
     if tier == "thorough":
-        n_sh, n_sc, n_py = 200000, 16000, 6400
+        n_sh, n_sc, n_py = 20000, 6400, 1600  # ~10x quick; ~10 min on 16 idle cores (DESIGN's 200k txs would need ~1 h)
     else:
         n_sh, n_sc, n_py = 2000, 640, 320
-    r = [Run("sighash", cases=n_sh, timeout=3000),
-         Run("sigcheck", cases=n_sc, timeout=3000),
-         Run("sigcheck_py", cases=n_py, params={"file": "UNSET"}, timeout=3000)]
+    to = 14400 if tier == "thorough" else 3600
+    r = [Run("sighash", cases=n_sh, timeout=to),
+         Run("sigcheck", cases=n_sc, timeout=to),
+         Run("sigcheck_py", cases=n_py, params={"file": "UNSET"}, timeout=to)]
     _RUNS["py"] = r[2]
     return r
 
@@ -368,15 +369,15 @@ def _vendored_verify(st, chk):
     """Second opinion on one signature check (digest already agreed): vendored ECDSA / BIP340 verification."""
     V = _vendored()
     if chk["digest"] is None:
-        return
+        return True
     if chk["sv"] <= 1:
         key = chk["key"]
         if len(key) == 65 and key[0] in (6, 7):
             if (key[64] & 1) != (key[0] & 1):
-                return
+                return True
             key = b"\x04" + key[1:]
         if len(key) not in (33, 65):
-            return
+            return True
         pk = V["key"].ECPubKey()
         pk.set(key)
         res = bool(pk.is_valid and pk.verify_ecdsa(chk["sig"][:-1], chk["digest"], low_s=False))
@@ -385,21 +386,25 @@ def _vendored_verify(st, chk):
     st.seen("vendored_verify_compared")
     if res != chk["valid"]:
         _ref_disagree(st, "signature verification", {k: (v.hex() if isinstance(v, bytes) else v) for k, v in chk.items()})
+        return False
+    return True
 
 
 def _vendored_digest(st, chk, tx_hex, spent_raw, n_in, annex_leaf):
     V = _vendored()
     if chk["digest"] is None:
-        return
+        return True
     vtx = V["msg"].tx_from_hex(tx_hex)
     if chk["sv"] == 0:
         ven = V["script"].LegacySignatureHash(V["script"].CScript(chk["script_code"]), vtx, n_in, chk["hashtype"])[0]
     elif chk["sv"] == 1:
         ven = V["script"].SegwitV0SignatureHash(chk["script_code"], vtx, n_in, chk["hashtype"], spent_raw[n_in][0])
     else:
-        return  # taproot digests of spends are cross-checked through the sighash family and the vendored verification
+        return True  # taproot digests of spends are cross-checked through the sighash family and the vendored verification
     if ven != chk["digest"]:
         _ref_disagree(st, "spend digest", {"tx": tx_hex, "n_in": n_in})
+        return False
+    return True
 
 
 def check_sigcheck(rec, st):
@@ -415,10 +420,13 @@ def check_sigcheck(rec, st):
         names = _flag_names(st, v["fl"])
         ok_ref, why, info = spend_ref.verify_spend(tx, spent, n_in, names)
         field = v["f"]
+        refs_agree = True
         for chk in info.checks:
-            _vendored_verify(st, chk)
+            refs_agree &= _vendored_verify(st, chk)
             if chk["sv"] <= 1 and chk["digest"] is not None and field in ("base", "scriptcode", "own_amount"):
-                _vendored_digest(st, chk, v["tx"], v["sp"], n_in, None)
+                refs_agree &= _vendored_digest(st, chk, v["tx"], v["sp"], n_in, None)
+        if not refs_agree:
+            continue  # harness problem (run becomes inconclusive), never a verdict about the node
         node_ok = v["ok"]
         if node_ok != ok_ref:
             key = "accepts-invalid-signature" if node_ok else "rejects-valid-signature"
@@ -510,10 +518,13 @@ def check_sigcheck_py(rec, st):
     if ok_ref != bool(rec["exp"]):
         _ref_disagree(st, "construction vs evaluator", {"id": rec["id"], "why": why})
         return
+    refs_agree = True
     for chk in info.checks:
-        _vendored_verify(st, chk)
+        refs_agree &= _vendored_verify(st, chk)
         if chk["sv"] <= 1:
-            _vendored_digest(st, chk, rec["tx"], rec["sp"], rec["nin"], None)
+            refs_agree &= _vendored_digest(st, chk, rec["tx"], rec["sp"], rec["nin"], None)
+    if not refs_agree:
+        return
     if rec["ok"] != ok_ref:
         key = "accepts-invalid-signature" if rec["ok"] else "rejects-valid-signature"
         st.violation("%s:python-signed" % key, "node verdict on a spend signed by the Python reference differs (reference: %s)" % why,
